@@ -23,6 +23,7 @@ MANIFEST = dict(
     design="5/C01")
 
 SENDER = ("10.0.0.1", 10022, _Desc.identifier, b"IOSclient")
+_SIM = None
 
 
 def real_chain(spa, start, length):
@@ -30,11 +31,20 @@ def real_chain(spa, start, length):
     from geckolib.utils.simulator import GeckoSimulator
     from geckolib.driver import GeckoUdpSocket, GeckoStructure
     from geckolib.driver.protocol.statusblock import GeckoStatusBlockProtocolHandler
-    sim = GeckoSimulator.__new__(GeckoSimulator)
-    sim._socket = GeckoUdpSocket()
-    sim._reliability = 1.0
-    sim._do_rferr = False
-    sim.structure = GeckoStructure(None)
+    # ONE simulator, built by its real constructor, serves every transfer of a check run (a real spa / simulator is long-lived
+    # and keeps answering while its block changes; requests of different connections repeat sequence numbers)
+    global _SIM
+    if _SIM is None:
+        import builtins
+        real_print = builtins.print
+        builtins.print = lambda *a, **k: None          # the simulator chats on stdout
+        try:
+            _SIM = GeckoSimulator()
+        finally:
+            builtins.print = real_print
+        _SIM._reliability = 1.0
+    sim = _SIM
+    del sim._socket._send_handlers[:]
     sim.structure.set_status_block(spa)
     req = GeckoStatusBlockProtocolHandler()
     req.handle(GeckoStatusBlockProtocolHandler.request(1, start, length, parms=SENDER)._content, SENDER)
@@ -291,6 +301,32 @@ def run(ctx):
         lines.append(f"chain {s0} {ln}")
         impl_ans.append(" ".join(f"{i}:{n}:{len(d)}:{checksum(d)}" for i, n, d, _ in ch))
         ctx.count("chain_pairs")
+    # ---- 1b. the spa's block changes between two identical requests (same sequence number, start, length - what a reconnecting
+    #          client sends): the long-lived simulator must serve its CURRENT bytes, and a fault-free transfer installs them
+    for (s0, ln) in rng.sample(sorted(chains), min(len(chains), 25 if ctx.quick else 300)):
+        spa2 = bytearray(spa)
+        for _ in range(rng.randint(1, 4)):
+            k = s0 + rng.randrange(ln)
+            spa2[k] ^= rng.randrange(1, 256)
+        spa2 = bytes(spa2)
+        inp = {"start": s0, "len": ln, "history": "the same request again after the spa's block changed", "spa": "seeded",
+               "changed_at": [i for i in range(1024) if spa2[i] != spa[i]]}
+        try:
+            real_chain(spa, s0, ln)                      # the request, answered from the old block
+            ch2 = real_chain(spa2, s0, ln)               # the identical request after the block changed
+        except Exception as e:  # noqa
+            ctx.violation("simulator-raises:repeat", inp, "simulator builds the chain", f"{type(e).__name__}: {e}")
+            continue
+        ctx.count("evaluations")
+        served = b"".join(d for _, _, d, _ in ch2)
+        # (the simulator's slices may run past the requested length; the clients trim - only the requested bytes matter)
+        if served[:ln] != spa2[s0:s0 + ln]:
+            bad = [s0 + i for i in range(min(len(served), ln)) if served[i] != spa2[s0 + i]]
+            ctx.violation("stale-chain:repeat-request-after-block-change", inp, "the simulator serves the spa's current bytes",
+                          {"positions_served_with_old_bytes": bad[:8], "served_len": len(served)})
+            continue
+        ra = run_async(spa2, cli, s0, ln, 2, [f"s{i}" for i in range(len(ch2))], ch2)
+        oracle(ctx, "async", ra, spa2, cli, s0, ln, 2, dict(inp, client="async"))
     # ---- 2. fault-free success on the real code for every pair (search for D1-like hangs) + faulty streams
     todo = sorted(chains)
     faulty = rng.sample(todo, min(len(todo), 60 if ctx.quick else 1200))
@@ -383,6 +419,16 @@ def replay(inp):
         r = res[j]
         oracle(ctx, "threaded-history", r, spa, r["before"], hs[j]["start"], hs[j]["len"], 1 + hs[j]["budget"], inp)
         return bool(ctx.violations), ctx.violations[0]["observed"] if ctx.violations else f"ok={r['ok']} sends={r['sends']}"
+    if inp.get("changed_at") is not None:
+        real_chain(spa, inp["start"], inp["len"])
+        spa2 = bytearray(spa)
+        for k in inp["changed_at"]:
+            spa2[k] ^= 0x5A
+        spa2 = bytes(spa2)
+        ch2 = real_chain(spa2, inp["start"], inp["len"])
+        served = b"".join(d for _, _, d, _ in ch2)
+        bad = served[:inp["len"]] != spa2[inp["start"]:inp["start"] + inp["len"]]
+        return bad, "the repeated request is served with the old bytes" if bad else "served with the current bytes"
     ch = real_chain(spa, inp["start"], inp["len"])
     toks = [] if inp["stream"] == "-" else inp["stream"].split(",")
     if inp.get("client") == "threaded":
